@@ -8,6 +8,7 @@ Case (JSON):
               "split": null | [v0, v1, ...],              # own split over `idx` (always combined, so successors see a list);
                                                           #   equal values = equal checksums (one body, futured de-duplication)
               "inherit": false,                           # true: no own split, takes the state of its single uncombined pred
+              "arr": true,                                # the task also holds a 3-element numpy array input (D74: repr of failed jobs)
               "emit": m,                                  # "lister": the node returns list(range(m)) (m may be 0) ...
               "split_from": "l"}],                        # ... over which this node splits at run time (always combined)
    "keep_state": ["a", ...]                               # split nodes that are NOT combined (successors inherit the split)
@@ -122,6 +123,8 @@ def gen_source(case: dict, uid: str) -> str:
             kw.append("inherit=True")
         if nd.get("emit") is not None:
             kw.append(f"emit={int(nd['emit'])}")
+        if nd.get("arr"):
+            kw.append("arr=np.arange(3)")  # an input whose comparison with the field default is an array, not a bool (D74)
         for i, p in enumerate(nd["preds"]):
             kw.append(f"d{i}={p}.out")
         expr = f"Body({', '.join(kw)})"
@@ -141,7 +144,7 @@ def gen_source(case: dict, uid: str) -> str:
     body_cls = "BodyT" if case.get("typed") else "Body"
     lines = [ln.replace("workflow.add(Body(", f"workflow.add({body_cls}(") for ln in lines]
     return (
-        f"import typing as ty\nfrom pydra.compose import workflow\nfrom harness.engines.sched_worker import Body, BodyT\n\n"
+        f"import typing as ty\nimport numpy as np\nfrom pydra.compose import workflow\nfrom harness.engines.sched_worker import Body, BodyT\n\n"
         f"@workflow.define(outputs={[f'o_{o}' for o in outs]!r})\n"
         f"def W_{uid}(ctl: str, mode: str):\n" + "\n".join(lines) + "\n    return " + ", ".join(f"{o}.out" for o in outs) + "\n"
     )
